@@ -161,6 +161,8 @@ func runC12(p *load.Program, r *oblig.Report) {
 	c12UpdatePublishes(p, r)
 	c12CoordinatorError(p, r)
 	c12RefreshWithinTTL(p, r)
+	c12LeaderSiblings(p, r)
+	c12ControllerFromMetadata(p, r)
 	// ListOffsets is routed by the leader of its first partition: Split must leave one partition per sub-request (C19.R3)
 	shareRules(r, "C12", "C12.R11 list-offsets requests are split per partition leader", func(sub *oblig.Report) { c19SplitMerge(p, sub) })
 	c12LegacyNegotiate(p, r, "C12.R2 version-selection table")
